@@ -1036,7 +1036,18 @@ func (g *gen) callFields(d *draft, adv bool) bool {
 	if !adv {
 		return true
 	}
-	switch g.r.Intn(12) {
+	switch g.r.Intn(16) {
+	case 12, 13: // boundary shapes of C20: the maximal provider list (10) and one more (rejected statelessly)
+		list := append([][]byte{}, provs...)
+		want := 10 + g.r.Intn(2)
+		for i := 0; len(list) < want; i++ {
+			list = append(list, repeatByte(byte(0x70+i), 20))
+		}
+		d.set("provs", hxList(list))
+	case 14: // maximal numeric fields inside the numeric domain E6
+		d.set("rep", "1").set("total", "9223372036854775807").set("freq", "4611686018427387904")
+	case 15: // a fee cap far beyond any balance
+		d.set("cap", "1606938044258990275541962092341162602522202993782792835301376")
 	case 0:
 		d.set("svc", []string{"nosvc", "sv", "a-"}[g.r.Intn(3)])
 	case 1:
